@@ -48,6 +48,7 @@ import (
 	"github.com/openconfig/gnmi/zzverif/harness/common"
 	"github.com/openconfig/gnmi/zzverif/model/cachemodel"
 	"github.com/openconfig/gnmi/zzverif/simgrpc"
+	"github.com/openconfig/gnmi/zzverif/simnet"
 	"github.com/openconfig/gnmi/zzverif/simrt"
 	"google.golang.org/protobuf/encoding/prototext"
 	"google.golang.org/protobuf/proto"
@@ -59,6 +60,10 @@ type TargetSpec struct {
 	Name     string        `json:"name"`
 	Request  string        `json:"request"`
 	Sessions [][]*gen.Noti `json:"sessions"`
+	// Raw: a scripted endpoint that sends the stream verbatim (the fake agent
+	// overwrites the prefix target with the subscribed name, so a target that
+	// reports no or a wrong name needs this).
+	Raw bool `json:"raw,omitempty"`
 }
 
 // Break is a target crash-and-restart at a virtual time.
@@ -180,7 +185,7 @@ func (H) Generate(rng *simrt.Rand, prop, tier string) (any, simrt.Config) {
 	}
 	faults := rng.Chance(0.4)
 	for i := 0; i < nt; i++ {
-		t := TargetSpec{Name: fmt.Sprintf("dev%d", i), Request: sc.Requests[rng.Intn(len(sc.Requests))]}
+		t := TargetSpec{Name: fmt.Sprintf("dev%d", i), Request: sc.Requests[rng.Intn(len(sc.Requests))], Raw: rng.Chance(0.5)}
 		ts := int64(1000)
 		ns := 1
 		if faults {
@@ -285,6 +290,48 @@ func responses(b *gen.Builder, ns []*gen.Noti) []*gpb.SubscribeResponse {
 		out = append(out, &gpb.SubscribeResponse{Response: &gpb.SubscribeResponse_Update{Update: b.Build(n)}})
 	}
 	return out
+}
+
+// rawTarget is a scripted gNMI endpoint: it sends its responses verbatim, then
+// a sync, then holds the stream open.
+type rawTarget struct {
+	gpb.UnimplementedGNMIServer
+	srv   *simgrpc.Server
+	lis   simnet.Listener
+	resps []*gpb.SubscribeResponse
+}
+
+func newRawTarget(port int, resps []*gpb.SubscribeResponse) (*rawTarget, error) {
+	r := &rawTarget{srv: simgrpc.NewServer(), resps: resps}
+	gpb.RegisterGNMIServer(r.srv, r)
+	lis, err := simnet.Listen("tcp", fmt.Sprintf(":%d", port))
+	if err != nil {
+		return nil, err
+	}
+	r.lis = lis
+	simrt.Go(func() { r.srv.Serve(lis) })
+	return r, nil
+}
+
+func (r *rawTarget) Close() {
+	r.srv.Stop()
+	r.lis.Close()
+}
+
+func (r *rawTarget) Subscribe(stream gpb.GNMI_SubscribeServer) error {
+	if _, err := stream.Recv(); err != nil {
+		return err
+	}
+	for _, m := range r.resps {
+		if err := stream.Send(m); err != nil {
+			return err
+		}
+	}
+	if err := stream.Send(&gpb.SubscribeResponse{Response: &gpb.SubscribeResponse_SyncResponse{SyncResponse: true}}); err != nil {
+		return err
+	}
+	simrt.Recv(stream.Context().Done())
+	return stream.Context().Err()
 }
 
 // stamped is the notification as the collector must file it: target name
@@ -427,10 +474,18 @@ func (H) Execute(x *common.Exec, s any) {
 	bj := gen.NewBuilder() // used by the judging code only
 
 	// ---- targets: the repository's fake agent in fixed mode
-	agents := make([]*fgnmi.Agent, len(sc.Targets))
+	agents := make([]interface{ Close() }, len(sc.Targets))
 	session := make([]int, len(sc.Targets))
 	startAgent := func(i int) error {
 		t := sc.Targets[i]
+		if t.Raw {
+			r, err := newRawTarget(agentPort(i, 0), responses(b, t.Sessions[session[i]]))
+			if err != nil {
+				return err
+			}
+			agents[i] = r
+			return nil
+		}
 		cfg := &fpb.Config{Target: t.Name, Port: int32(agentPort(i, 0)), DisableEof: true,
 			Generator: &fpb.Config_Fixed{Fixed: &fpb.FixedGenerator{Responses: responses(b, t.Sessions[session[i]])}}}
 		a, err := fgnmi.New(cfg, nil)
